@@ -750,8 +750,8 @@ fn dump(tcx: TyCtxt<'_>, out_dir: &str) {
             };
             bodies.push(cx.body_json(kind, None));
         }
-        // promoteds
-        if is_fn_like {
+        // promoteds (also those of consts and statics: `const T: &[..] = &[..]` keeps its array in one)
+        {
             let proms = tcx.promoted_mir(did);
             for (pi, pb) in proms.iter_enumerated() {
                 let cx = BodyCx {
